@@ -1,7 +1,7 @@
 #!/bin/bash
 # run every claimed check in the given tier on /repo as it is; print one line per check
 tier=${1:-quick}
-cd /verif
+cd "$(dirname "$0")/.."
 for id in $(python3 -c "import json;print(' '.join(c['property_id'] for c in json.load(open('MANIFEST.json'))['checks']))"); do
   out=$(./check.sh $id $tier 2>&1); rc=$?
   echo "$id exit=$rc $(echo "$out" | grep -E "^\[$id" | tail -1)"
